@@ -24,12 +24,12 @@ import (
 // ---- C20: shellcheck/pyflakes integration loses nothing and bounds concurrency ------------------------
 
 type c20Step struct {
-	ID     string   `json:"id"`
-	Shell  string   `json:"shell"` // "" = not given at step level
-	Lines  []string `json:"lines"` // script lines (the marker line is added by render)
-	Plan   string   `json:"plan"`
-	N      int      `json:"n"`
-	LatMS  int      `json:"lat_ms"`
+	ID    string   `json:"id"`
+	Shell string   `json:"shell"` // "" = not given at step level
+	Lines []string `json:"lines"` // script lines (the marker line is added by render)
+	Plan  string   `json:"plan"`
+	N     int      `json:"n"`
+	LatMS int      `json:"lat_ms"`
 }
 
 type c20Job struct {
@@ -392,7 +392,7 @@ func checkToolIntegration(c *c20Case) (key, msg string, stats map[string]int) {
 			if e.End > returned.UnixNano() {
 				return "C20/tool-still-running-at-return", fmt.Sprintf("pid %d (%s/%s) ended after LintFiles returned\n%s", r.Pid, r.Tool, r.ID, c20Show(c)), stats
 			}
-			if syscall.Kill(r.Pid, 0) == nil {
+			if cl, err := os.ReadFile(fmt.Sprintf("/proc/%d/cmdline", r.Pid)); err == nil && strings.Contains(string(cl), "fake-") && syscall.Kill(r.Pid, 0) == nil {
 				return "C20/tool-process-not-collected", fmt.Sprintf("pid %d (%s/%s) still exists after LintFiles returned\n%s", r.Pid, r.Tool, r.ID, c20Show(c)), stats
 			}
 		}
